@@ -911,7 +911,10 @@ func execBubble(t *testing.T) func(Case) evid.Result {
 
 // ---------------------------------------------------------------------------- generator
 
-var alphabet = []string{"a", "b"}
+// "32=a" is a typed component with the value bytes of "a", "32%3Da" the generic component
+// whose value is the text "32=a": three different components that the engine's name trie
+// must keep apart (seeded defects C14-r3-1 and C20-r3-3 keyed its children ambiguously).
+var alphabet = []string{"a", "b", "32=a", "32%3Da"}
 
 var lifetimes = []int{0, 1, 5, 5, 10, 10, 20, 100, 1000, 4000, 6000}
 
@@ -936,7 +939,7 @@ func genCase(t *rapid.T) Case {
 		d := rapid.IntRange(minDepth, 4).Draw(t, label+"depth")
 		cs := make([]string, d)
 		for i := range cs {
-			cs[i] = alphabet[rapid.SampledFrom([]int{0, 0, 0, 1}).Draw(t, label+"c")]
+			cs[i] = alphabet[rapid.SampledFrom([]int{0, 0, 0, 1, 0, 0, 0, 1, 2, 3}).Draw(t, label+"c")]
 		}
 		return join(cs)
 	}
@@ -953,9 +956,20 @@ func genCase(t *rapid.T) Case {
 				if len(base)-1 >= minDepth {
 					return join(base[:len(base)-1])
 				}
-			case 6, 7, 8:
+			case 6, 7:
 				if len(base) < 5 {
 					return join(append(append([]string{}, base...), rapid.SampledFrom(alphabet).Draw(t, label+"cc")))
+				}
+			case 8:
+				// the same name with one component replaced by its look-alike
+				if len(base) >= 1 && len(base) >= minDepth {
+					tw := append([]string{}, base...)
+					i := rapid.IntRange(0, len(tw)-1).Draw(t, label+"twi")
+					tw[i] = map[string]string{"a": "32=a", "32=a": "32%3Da", "32%3Da": "a", "b": "32=b"}[tw[i]]
+					if tw[i] == "" {
+						tw[i] = "a"
+					}
+					return join(tw)
 				}
 			}
 		}
